@@ -144,6 +144,10 @@ func (m *monitor) partM() []histCase {
 		mk(step{Outcome: "cancel", K: 1, API: "CalculateWithContext", Content: katSpec(k), Chunk: "1"}, okS(k, "CalculateWithContext", "strings.Reader"))
 		mk(step{Outcome: "fail", K: 1, API: "CalculateWithContext", Content: katSpec(k), Chunk: "1", FailErr: "unexpectedEOF"}, okS(k, "CalculateStringHash", "strings.Reader"))
 		mk(okS(k, "Calculate", "fill"), okS("", "Calculate", "fill"), okS(k, "CalculateWithContext", "1"))
+		for _, bl := range blankInputs {
+			mk(okS(bl, "CalculateStringHash", "strings.Reader"))
+			mk(okS(bl, "Calculate", "strings.Reader"), okS(bl, "CalculateStringHash", "strings.Reader"))
+		}
 		mk(step{Outcome: "fail", K: 0, API: "Calculate", Content: katSpec(k), Chunk: "fill", FailErr: "custom"}, okS(k, "Calculate", "fill"))
 		mk(step{Outcome: "cancel", K: -1, API: "CalculateWithContext", Content: katSpec(k), Chunk: "fill"}, okS(k, "Calculate", "fill"))
 		mk(step{Outcome: "fail", K: len(k), API: "Calculate", Content: katSpec(k), Chunk: "fill", FailErr: "custom"}, okS(k, "Calculate", "fill")) // error instead of EOF
